@@ -473,6 +473,148 @@ func runC04(c *Ctx) {
 			}
 		}
 	}
+	// an algorithm mismatch together with a second defect of the same object (a header the encoder refuses,
+	// malformed hand-made raw bytes, a parent that cannot be countersigned): the answer is still the
+	// mismatch error, whatever else is wrong, and the key is not consulted. Two values under the alg label
+	// (spelt with two Go integer types): no signer or verifier equals both, so nothing proceeds.
+	c04opsOn := func(st string, h cose.Headers, ext []byte, parent any) (sign func(cose.Signer) error, verify func(cose.Verifier) error) {
+		switch st {
+		case "sign1":
+			return func(sg cose.Signer) error {
+					return (&cose.Sign1Message{Headers: cloneHeaders(h), Payload: []byte("p")}).Sign(gen.Entropy, ext, sg)
+				}, func(v cose.Verifier) error {
+					return (&cose.Sign1Message{Headers: cloneHeaders(h), Payload: []byte("p"), Signature: mon.FixedSig}).Verify(ext, v)
+				}
+		case "untagged":
+			return func(sg cose.Signer) error {
+					return (&cose.UntaggedSign1Message{Headers: cloneHeaders(h), Payload: []byte("p")}).Sign(gen.Entropy, ext, sg)
+				}, func(v cose.Verifier) error {
+					return (&cose.UntaggedSign1Message{Headers: cloneHeaders(h), Payload: []byte("p"), Signature: mon.FixedSig}).Verify(ext, v)
+				}
+		case "signature":
+			return func(sg cose.Signer) error {
+					return (&cose.Signature{Headers: cloneHeaders(h)}).Sign(gen.Entropy, sg, []byte{0x40}, []byte("p"), ext)
+				}, func(v cose.Verifier) error {
+					return (&cose.Signature{Headers: cloneHeaders(h), Signature: mon.FixedSig}).Verify(v, []byte{0x40}, []byte("p"), ext)
+				}
+		default:
+			return func(sg cose.Signer) error {
+					return (&cose.Countersignature{Headers: cloneHeaders(h)}).Sign(gen.Entropy, sg, parent, ext)
+				}, func(v cose.Verifier) error {
+					return (&cose.Countersignature{Headers: cloneHeaders(h), Signature: mon.FixedSig}).Verify(v, parent, ext)
+				}
+		}
+	}
+	goodParent := &cose.Sign1Message{Headers: cose.Headers{Protected: cose.ProtectedHeader{int64(1): cose.AlgorithmES256}}, Payload: []byte("parent"), Signature: mon.FixedSig}
+	type c04defect struct {
+		name   string
+		extra  map[any]any // added to the protected header
+		raw    []byte      // hand-made RawProtected
+		parent any         // countersignature only
+	}
+	defects := []c04defect{
+		{name: "content-type-not-a-media-type", extra: map[any]any{int64(3): "plain"}},
+		{name: "iv-and-partial-iv", extra: map[any]any{int64(5): []byte("iv"), int64(6): []byte("piv")}},
+		{name: "crit-names-absent-label", extra: map[any]any{int64(2): []any{int64(99)}}},
+		{name: "value-of-unencodable-go-type", extra: map[any]any{int64(99): make(chan int)}},
+		{name: "label-of-unsupported-type", extra: map[any]any{1.5: "x"}},
+		{name: "raw-protected-not-cbor", raw: []byte{0x43, 0xff, 0xff, 0xff}},
+		{name: "raw-protected-not-a-byte-string", raw: []byte{0xa0}},
+		{name: "unsigned-parent", parent: &cose.Sign1Message{Headers: goodParent.Headers, Payload: []byte("parent")}},
+		{name: "payload-less-parent", parent: &cose.Sign1Message{Headers: goodParent.Headers, Signature: mon.FixedSig}},
+		{name: "parent-of-unsupported-type", parent: "not a message"},
+	}
+	for _, st := range []string{"sign1", "untagged", "signature", "countersignature"} {
+		for _, d := range defects {
+			if d.parent != nil && st != "countersignature" {
+				continue
+			}
+			for spell := 0; spell < 4; spell++ {
+				for _, ext := range exts {
+					var label, value any = int64(1), cose.AlgorithmES256
+					switch spell {
+					case 1:
+						label, value = int(1), int64(-7)
+					case 2:
+						label, value = int8(1), int(-7)
+					case 3:
+						label, value = uint16(1), int32(-7)
+					}
+					h := cose.Headers{Protected: cose.ProtectedHeader{label: value}}
+					for k, v := range d.extra {
+						h.Protected[k] = v
+					}
+					h.RawProtected = d.raw
+					parent := any(goodParent)
+					if d.parent != nil {
+						parent = d.parent
+					}
+					sign, verify := c04opsOn(st, h, ext, parent)
+					cls := fmt.Sprintf("mismatch-plus-defect/%s/%s/spell=%d/ext=%s", st, d.name, spell, gen.ExternalClass(ext))
+					in := map[string]any{"family": "mismatch together with a second defect", "cell": cls}
+					spy := &mon.SpySigner{Alg: cose.AlgorithmPS256}
+					vspy := &mon.SpyVerifier{Alg: cose.AlgorithmPS256}
+					var es, ev error
+					if guard(rec, "mismatch plus defect", in, func() { es = sign(spy); ev = verify(vspy) }) {
+						continue
+					}
+					rec.Eval(2)
+					rec.Class(cls)
+					rec.Event("mismatch-plus-defect")
+					// a hand-made raw field on the sign path is the caller's statement of what is to be signed; the
+					// parsed map is then not what is consulted for a decoded object - only the verify path is judged
+					if d.raw == nil && (spy.Calls != 0 || !errors.Is(es, cose.ErrAlgorithmMismatch)) {
+						rec.Violate("key-invoked", "mismatch-plus-defect/sign/"+st+"/"+d.name, fmt.Sprintf("header alg ES256, signer PS256, and %s: signer calls=%d, err=%v (want the algorithm mismatch error)", d.name, spy.Calls, es), in)
+					}
+					if vspy.Calls != 0 || !errors.Is(ev, cose.ErrAlgorithmMismatch) {
+						rec.Violate("key-invoked", "mismatch-plus-defect/verify/"+st+"/"+d.name, fmt.Sprintf("header alg ES256, verifier PS256, and %s: verifier calls=%d, err=%v (want the algorithm mismatch error)", d.name, vspy.Calls, ev), in)
+					}
+				}
+			}
+		}
+	}
+	for _, st := range []string{"sign1", "untagged", "signature", "countersignature", "hashenv"} {
+		for _, pair := range [][2]any{{int64(1), int(1)}, {int(1), int64(1)}, {int64(1), uint8(1)}, {int32(1), uint64(1)}, {int(1), int16(1)}} {
+			for _, which := range []int{0, 1} {
+				for _, ext := range exts {
+					if st == "hashenv" && len(ext) > 0 {
+						continue
+					}
+					algs := [2]cose.Algorithm{cose.AlgorithmES256, cose.AlgorithmPS256}
+					h := cose.Headers{Protected: cose.ProtectedHeader{pair[0]: algs[0], pair[1]: algs[1]}}
+					cls := fmt.Sprintf("alg-twice/%s/%T+%T/key=%d/ext=%s", st, pair[0], pair[1], which, gen.ExternalClass(ext))
+					in := map[string]any{"family": "two different alg values under two spellings of label 1", "cell": cls}
+					spy := &mon.SpySigner{Alg: algs[which]}
+					vspy := &mon.SpyVerifier{Alg: algs[which]}
+					for rep := 0; rep < 8; rep++ { // map iteration order varies from call to call
+						var es, ev error
+						if st == "hashenv" {
+							pl := cose.HashEnvelopePayload{HashAlgorithm: cose.AlgorithmSHA256, HashValue: make([]byte, 32)}
+							if guard(rec, "alg twice", in, func() { _, es = cose.SignHashEnvelope(gen.Entropy, spy, cloneHeaders(h), pl) }) {
+								break
+							}
+						} else {
+							sign, verify := c04opsOn(st, h, ext, goodParent)
+							if guard(rec, "alg twice", in, func() { es = sign(spy); ev = verify(vspy) }) {
+								break
+							}
+							if ev == nil || vspy.Calls != 0 {
+								rec.Violate("key-invoked", "alg-twice/verify/"+st, fmt.Sprintf("the protected header holds alg ES256 and alg PS256; a verifier of alg %d was consulted %d time(s), err=%v", int64(algs[which]), vspy.Calls, ev), in)
+								break
+							}
+						}
+						rec.Eval(1)
+						rec.Event("alg-twice")
+						if es == nil || spy.Calls != 0 {
+							rec.Violate("key-invoked", "alg-twice/sign/"+st, fmt.Sprintf("the protected header holds alg ES256 and alg PS256; a signer of alg %d was invoked %d time(s), err=%v", int64(algs[which]), spy.Calls, es), in)
+							break
+						}
+					}
+					rec.Class(cls)
+				}
+			}
+		}
+	}
 	rec.Exhaustive = !c.Thorough
 	rec.Require("key-call-observed", 1000)
 	rec.Require("key-call-forbidden", 1000)
